@@ -32,6 +32,10 @@ pub struct InnerBucket<'b> {
     pub pages: Pages,
     pub muts: Ghost<nat>,
     pub tree: Ghost<int>,        // names the (abstract) in-memory tree this bucket value holds
+    // ghost journal: the entries (key, identity) stored through put_leaf, in order (appended by a proof hint next to the real
+    // `insert_data` call); lets InnerBucket::spill say WHICH child-bucket headers it re-stored
+    pub puts: Ghost<Seq<(Seq<u8>, int)>>,
+    pub depth: Ghost<nat>,       // nesting measure: open child buckets are strictly lower (the handles form a finite tree; ASSUMED)
 }
 // shape of the abstract tree: does slot i of node id exist, and is it a key/value pair (as opposed to a nested bucket)?
 pub uninterp spec fn slot_exists(t: int, id: PageNodeID, i: int) -> bool;
@@ -84,7 +88,8 @@ impl<'n> Node<'n> {
 spec fn child_root_ok(bk: InnerBucket) -> bool { bk.meta.root_page != 0 ==> tree_page(bk.meta.root_page) }
 // what a mutator may leave unchanged / what counts as "nothing happened"
 spec fn untouched(a: InnerBucket, b: InnerBucket) -> bool {
-    a.meta == b.meta && a.deleted == b.deleted && a.dirty == b.dirty && a.muts@ == b.muts@ && a.tree@ == b.tree@
+    a.meta == b.meta && a.deleted == b.deleted && a.dirty == b.dirty && a.muts@ == b.muts@ && a.tree@ == b.tree@ && a.puts@ == b.puts@
+        && a.depth@ == b.depth@
 }
 // stub U16: `key.as_ref()` for T: AsRef<[u8]>
 #[verifier::external_body]
@@ -113,6 +118,7 @@ impl<'b> InnerBucket<'b> {
         ensures final(self).meta == old(self).meta && final(self).deleted == old(self).deleted && final(self).dirty == old(self).dirty,
             final(self).muts@ == old(self).muts@ + 1, final(self).tree@ == old(self).tree@,
             (*r).cur().g_tree@ == old(self).tree@, (*r).cur().g_id@ == id, final(self).buckets == old(self).buckets,
+            final(self).puts@ == old(self).puts@, final(self).depth@ == old(self).depth@,
     { unimplemented!() }
 }
 
@@ -228,6 +234,7 @@ impl<'b> InnerBucket<'b> {
         ensures
             final(self).meta == old(self).meta && final(self).deleted == old(self).deleted && final(self).dirty,
             final(self).tree@ == old(self).tree@, final(self).muts@ == old(self).muts@ + 1,
+            final(self).puts@ == old(self).puts@, final(self).depth@ == old(self).depth@,
             forall|q: Seq<u8>| #[trigger] final(self).buckets.has(q) == (old(self).buckets.has(q) || q == key_view(name)),
     { unimplemented!() }
     #[verifier::external_body]
